@@ -71,6 +71,9 @@ def run(n=3000, seed=0):
             p = eval(e, ns)
         except (ex.CannotBeRepeatedException, ex.NonFixedWidthPatternException, ex.EmptyNegativeAssertionException):
             continue
+        except (RecursionError, IndexError, KeyError, TypeError, AttributeError, ValueError, re.error) as err:
+            fails.append({"expr": e, "error": f"crashed with {type(err).__name__} (not a library exception)"})
+            continue
         if str(p) == "":
             continue
         done += 1
@@ -82,6 +85,10 @@ def run(n=3000, seed=0):
                 raised = False
             except ex.NonFixedWidthPatternException:
                 raised = True
+            except (RecursionError, IndexError, KeyError, TypeError, AttributeError, ValueError, re.error) as err:
+                fails.append({"expr": f"Pregex('x').{meth}({e})", "pattern": str(p), "method": meth,
+                              "error": f"crashed with {type(err).__name__} (not a library exception)"})
+                break
             if raised == fixed:
                 fails.append({"expr": e, "pattern": str(p), "structural_width": [w0, w1], "method": meth, "raised": raised})
                 break
